@@ -21,6 +21,8 @@ use searchlite_core::api::Index;
 use searchlite_core::Schema;
 use serde_json::{json, Value};
 use std::path::{Path, PathBuf};
+use std::sync::atomic::{AtomicU8, Ordering};
+use std::sync::Arc;
 
 #[path = "httpc.rs"]
 pub mod httpc;
@@ -89,10 +91,16 @@ fn gen_doc(rng: &mut Rng, id: usize) -> Value {
   let n = 1 + rng.below(5);
   let body: Vec<&str> = (0..n).map(|_| *rng.pick(&WORDS)).collect();
   let mut d = json!({"_id": format!("d{id}"), "body": body.join(" ")});
-  if rng.chance(1, 2) {
-    d["tag"] = json!(["a", "b", "c"][rng.below(3)]);
-    d["year"] = json!(2000 + rng.below(20));
-    d["n"] = json!(rng.below(9));
+  // members outside the session's schema are rejected when the document is queued
+  // (unknown top-level fields), so extra members appear only now and then: schema 1 knows
+  // tag/year, schema 2 knows n
+  match rng.below(8) {
+    0 => {
+      d["tag"] = json!(["a", "b", "c"][rng.below(3)]);
+      d["year"] = json!(2000 + rng.below(20));
+    }
+    1 => d["n"] = json!(rng.below(9)),
+    _ => {}
   }
   d
 }
@@ -521,18 +529,27 @@ fn to_document(v: &Value) -> Option<Document> {
   Some(Document { fields: obj.iter().map(|(k, v)| (k.clone(), v.clone())).collect() })
 }
 
+/// the library handle the probes use: the harness's own `Index`, opened while no fault is
+/// armed (it mirrors the `Index` the server holds: later requests do not re-read the manifest)
+fn with_index<T>(h: Option<&Index>, idx: &Path, f: impl FnOnce(&Index) -> anyhow::Result<T>) -> anyhow::Result<T> {
+  match h {
+    Some(i) => f(i),
+    None => {
+      let i = Index::open(lib_opts(idx, false))?;
+      f(&i)
+    }
+  }
+}
+
 /// schema of the index on disk, read through the library
-fn disk_schema(idx: &Path) -> Option<Schema> {
-  Index::open(lib_opts(idx, false)).ok().map(|i| i.manifest().schema)
+fn disk_schema(h: Option<&Index>, idx: &Path) -> Option<Schema> {
+  // guarded: with a storage panic armed an open panics
+  guarded(|| with_index(h, idx, |i| Ok(i.manifest().schema)).ok()).ok().flatten()
 }
 
 /// ok / err / panic of `index.writer()` on the directory (reads the log; writes nothing)
-fn probe_writer(idx: &Path) -> &'static str {
-  match guarded(|| Index::open(lib_opts(idx, false)).and_then(|i| i.writer().map(|_| ()))) {
-    Ok(Ok(())) => "ok",
-    Ok(Err(_)) => "err",
-    Err(_) => "panic",
-  }
+fn probe_writer(h: Option<&Index>, idx: &Path) -> &'static str {
+  class3(guarded(|| with_index(h, idx, |i| i.writer().map(|_| ()))))
 }
 
 fn copy_dir(from: &Path, to: &Path) {
@@ -548,10 +565,17 @@ fn copy_dir(from: &Path, to: &Path) {
 }
 
 /// outcome of `writer().commit()` on a private copy of the directory
-fn probe_commit(idx: &Path) -> &'static str {
+fn probe_commit(idx: &Path, armed: u8) -> &'static str {
   let tmp = scratch();
   let copy = tmp.path().join("copy");
   copy_dir(idx, &copy);
+  // the copy lives under another prefix: give it the same fault mode
+  let _g = if armed != 0 {
+    searchlite_core::storage::verif::install(copy.clone(), fault_hook(Arc::new(AtomicU8::new(armed))));
+    Some(HookGuard(copy.clone()))
+  } else {
+    None
+  };
   match guarded(|| {
     let i = Index::open(lib_opts(&copy, false))?;
     let mut w = i.writer()?;
@@ -563,21 +587,62 @@ fn probe_commit(idx: &Path) -> &'static str {
   }
 }
 
-fn probe_search(idx: &Path, req: &SearchRequest) -> &'static str {
-  match guarded(|| {
-    let i = Index::open(lib_opts(idx, false))?;
-    let r = i.reader()?;
-    r.search(req).map(|_| ())
-  }) {
+fn probe_search(h: Option<&Index>, idx: &Path, req: &SearchRequest) -> &'static str {
+  class3(guarded(|| with_index(h, idx, |i| i.reader()?.search(req).map(|_| ()))))
+}
+
+/// storage fault injection through the repository's own hook (`--cfg searchlite_verif`):
+/// while armed, every storage primitive below the directory fails (`1`) or panics (`2`).
+/// Primitives a destructor may issue during unwinding (sync/flush/write/set_len) only fail.
+const ARM_ERR: u8 = 1;
+const ARM_PANIC: u8 = 2;
+
+fn fault_hook(mode: Arc<AtomicU8>) -> searchlite_core::storage::verif::FsHook {
+  Arc::new(move |ev: &searchlite_core::storage::verif::FsEvent| {
+    if ev.after {
+      return Ok(());
+    }
+    match mode.load(Ordering::SeqCst) {
+      ARM_ERR => Err(anyhow::anyhow!("injected storage fault")),
+      ARM_PANIC => {
+        if matches!(ev.op, "sync" | "flush" | "write" | "set_len" | "sync_dir") {
+          Err(anyhow::anyhow!("injected storage fault"))
+        } else {
+          panic!("injected storage panic")
+        }
+      }
+      _ => Ok(()),
+    }
+  })
+}
+
+struct HookGuard(PathBuf);
+impl Drop for HookGuard {
+  fn drop(&mut self) {
+    searchlite_core::storage::verif::uninstall(&self.0);
+  }
+}
+
+fn class3(r: Result<anyhow::Result<()>, String>) -> &'static str {
+  match r {
     Ok(Ok(())) => "ok",
     Ok(Err(_)) => "err",
     Err(_) => "panic",
   }
 }
 
+/// ok / err / panic of `index.reader()` (what `/refresh` does)
+fn probe_reader(h: Option<&Index>, idx: &Path) -> &'static str {
+  class3(guarded(|| with_index(h, idx, |i| i.reader().map(|_| ()))))
+}
+
 struct Sess {
   idx: PathBuf,
   max_body: usize,
+  /// storage fault mode currently armed (0 = none)
+  armed: u8,
+  /// the harness's own handle on the directory (see `with_index`)
+  handle: Option<Index>,
   /// the server holds an open `Index`
   loaded: bool,
 }
@@ -627,11 +692,11 @@ fn derive(sess: &Sess, stepv: &Value, w: &Wire) -> Derived {
   }
   // index state as `require_index` sees it
   let (idx_state, schema) = if sess.loaded {
-    ("ready", disk_schema(&sess.idx))
+    ("ready", disk_schema(sess.handle.as_ref(), &sess.idx))
   } else if !manifest_exists {
     ("missing", None)
   } else {
-    match disk_schema(&sess.idx) {
+    match disk_schema(sess.handle.as_ref(), &sess.idx) {
       Some(s) => ("ready", Some(s)),
       None => ("corrupt", None),
     }
@@ -766,7 +831,7 @@ fn derive(sess: &Sess, stepv: &Value, w: &Wire) -> Derived {
       } else {
         match add_body {
           "docs" => {
-            let (core, werr) = ingest_core(&sess.idx, schema.as_ref(), &docs);
+            let (core, werr) = ingest_core(sess.handle.as_ref(), &sess.idx, schema.as_ref(), &docs);
             d.cores = vec![core];
             facts["writer_err"] = json!(werr);
             d.expect = match (core, werr) {
@@ -791,7 +856,7 @@ fn derive(sess: &Sess, stepv: &Value, w: &Wire) -> Derived {
           if !input_bad {
             d.loads = idx_state == "ready";
             if idx_state == "ready" {
-              let (core, werr) = ingest_core(&sess.idx, schema.as_ref(), &b.docs);
+              let (core, werr) = ingest_core(sess.handle.as_ref(), &sess.idx, schema.as_ref(), &b.docs);
               d.cores = vec![core];
               writer_err = werr;
             }
@@ -802,7 +867,7 @@ fn derive(sess: &Sess, stepv: &Value, w: &Wire) -> Derived {
           if !input_bad {
             d.loads = idx_state == "ready";
             if idx_state == "ready" {
-              let ws = probe_writer(&sess.idx);
+              let ws = probe_writer(sess.handle.as_ref(), &sess.idx);
               d.cores = vec![if ws == "panic" { "panic" } else { "ok" }];
               writer_err = ws == "err";
             }
@@ -828,7 +893,7 @@ fn derive(sess: &Sess, stepv: &Value, w: &Wire) -> Derived {
     "commit" => {
       d.loads = idx_state == "ready";
       if idx_state == "ready" {
-        let core = probe_commit(&sess.idx);
+        let core = probe_commit(&sess.idx, sess.armed);
         d.cores = vec![core];
         d.expect = match core {
           "ok" => "2xx",
@@ -842,9 +907,20 @@ fn derive(sess: &Sess, stepv: &Value, w: &Wire) -> Derived {
     "refresh" | "compact" => {
       d.loads = idx_state == "ready";
       if idx_state == "ready" {
-        // not predicted natively: compaction may refuse (non-stored fast fields), a reader may fail
-        d.cores = vec!["ok", "err"];
-        d.expect = "any";
+        if sess.armed != 0 {
+          // both start by opening a reader, which goes to storage
+          let core = probe_reader(sess.handle.as_ref(), &sess.idx);
+          d.cores = vec![core];
+          d.expect = match core {
+            "ok" => "any",
+            "err" => "non2xx",
+            _ => "500",
+          };
+        } else {
+          // not predicted natively: compaction may refuse (non-stored fast fields), a reader may fail
+          d.cores = vec!["ok", "err"];
+          d.expect = "any";
+        }
       } else {
         d.expect = if idx_state == "missing" { "404" } else { "non2xx" };
       }
@@ -858,7 +934,7 @@ fn derive(sess: &Sess, stepv: &Value, w: &Wire) -> Derived {
         } else {
           d.loads = idx_state == "ready";
           if idx_state == "ready" {
-            let core = probe_search(&sess.idx, &req);
+            let core = probe_search(sess.handle.as_ref(), &sess.idx, &req);
             d.cores = vec![core];
             d.expect = match core {
               "ok" => "2xx",
@@ -890,8 +966,8 @@ fn derive(sess: &Sess, stepv: &Value, w: &Wire) -> Derived {
 }
 
 /// outcome of `writer(); add_document*` for these documents: (core, `writer()` returned Err)
-fn ingest_core(idx: &Path, schema: Option<&Schema>, docs: &[Value]) -> (&'static str, bool) {
-  match probe_writer(idx) {
+fn ingest_core(h: Option<&Index>, idx: &Path, schema: Option<&Schema>, docs: &[Value]) -> (&'static str, bool) {
+  match probe_writer(h, idx) {
     "panic" => return ("panic", false),
     "err" => return ("ok", true),
     _ => {}
@@ -977,7 +1053,7 @@ impl Prop for C24 {
     "C24"
   }
   fn rule(&self) -> &'static str {
-    "case = one session (fresh in-process server + scratch index directory, 20-30 raw HTTP/1.1 requests drawn from valid / hostile / mutated bodies, content types, methods, paths, framings around the body limit, stalls, core errors and panics, disk actions); every request is one evaluation; a request is non-trivial when it exercises a failure branch (the model's expected status is not 2xx) ; distinct = distinct (server config, index state, request) JSON"
+    "case = one session (fresh in-process server + scratch index directory, 20-30 raw HTTP/1.1 requests drawn from valid / hostile / mutated bodies, content types, methods, paths, framings around the body limit, stalls, core errors and panics — also by storage fault injection through the FsStorage hook —, disk actions); every request is one evaluation; a request is non-trivial when it exercises a failure branch (the model's expected status is not 2xx) ; distinct = distinct (server config, index state, request) JSON"
   }
   fn count(&self, tier: Tier) -> usize {
     tier.pick(64, 6000)
@@ -989,6 +1065,7 @@ impl Prop for C24 {
       1 => "late_external",
       2 => "corrupt_manifest",
       3 => "garbage_wal",
+      4 => "storage_faults",
       _ => "normal",
     };
     let with_stall = i % 4 == 1;
@@ -1024,6 +1101,31 @@ impl Prop for C24 {
         steps.push(step("add.valid", "POST", "/add", None, &ndjson(&[gen_doc(rng, 3)]), "cl"));
         steps.push(step("commit", "POST", "/commit", None, b"", "cl"));
       }
+      "storage_faults" => {
+        // the core fails, then panics, under every endpoint that reaches it
+        steps.push(step("init.valid", "POST", "/init", j, schema_pool(rng.below(2)).to_string().as_bytes(), "cl"));
+        steps.push(step("add.valid", "POST", "/add", None, &ndjson(&[gen_doc(rng, 1), gen_doc(rng, 2)]), "cl"));
+        steps.push(step("commit", "POST", "/commit", None, b"", "cl"));
+        for arm in ["arm_err", "arm_panic"] {
+          steps.push(json!({"tag": "disk", "disk": arm}));
+          let mut reqs = vec![
+            step("search.valid", "POST", "/search", j, search_pool(rng).to_string().as_bytes(), "cl"),
+            step("add.valid", "POST", "/add", None, &ndjson(&[gen_doc(rng, 3)]), "cl"),
+            step("bulk.valid", "POST", "/bulk", j, json!({"docs": [gen_doc(rng, 4)]}).to_string().as_bytes(), "cl"),
+            step("delete.valid", "POST", "/delete", j, json!({"ids": ["d1"]}).to_string().as_bytes(), "cl"),
+            step("commit", "POST", "/commit", None, b"", "cl"),
+            step("refresh", "POST", "/refresh", None, b"", "cl"),
+            step("compact", "POST", "/compact", None, b"", "cl"),
+            step("stats", "GET", "/stats", None, b"", "cl"),
+            step("init.valid", "POST", "/init", j, schema_pool(0).to_string().as_bytes(), "cl"),
+          ];
+          rng.shuffle(&mut reqs);
+          steps.extend(reqs);
+          steps.push(json!({"tag": "disk", "disk": "disarm"}));
+          steps.push(step("search.valid", "POST", "/search", j, search_pool(rng).to_string().as_bytes(), "cl"));
+          steps.push(step("commit", "POST", "/commit", None, b"", "cl"));
+        }
+      }
       _ => {}
     }
     while steps.len() < n {
@@ -1054,7 +1156,10 @@ impl Prop for C24 {
         return;
       }
     };
-    let mut sess = Sess { idx: idx.clone(), max_body, loaded: kind == "preexisting" };
+    let mut sess = Sess { idx: idx.clone(), max_body, armed: 0, handle: None, loaded: kind == "preexisting" };
+    let fault_mode = Arc::new(AtomicU8::new(0));
+    searchlite_core::storage::verif::install(idx.clone(), fault_hook(fault_mode.clone()));
+    let _hook_guard = HookGuard(idx.clone());
     s.count(&format!("session.{kind}"));
     let steps = case["steps"].as_array().cloned().unwrap_or_default();
     let stall_wait = (timeout_secs + 20) * 1000;
@@ -1066,6 +1171,22 @@ impl Prop for C24 {
         c
       };
       if let Some(dk) = stepv["disk"].as_str() {
+        if matches!(dk, "arm_err" | "arm_panic" | "disarm") {
+          // only once the server holds the index: `require_index` opens it on the async task
+          let m = match dk {
+            "arm_err" if sess.loaded => ARM_ERR,
+            "arm_panic" if sess.loaded => ARM_PANIC,
+            _ => 0,
+          };
+          if sess.armed == 0 {
+            // the handle must see everything the server has committed so far
+            sess.handle = if idx.join("MANIFEST.json").exists() { Index::open(lib_opts(&idx, false)).ok() } else { None };
+          }
+          fault_mode.store(m, Ordering::SeqCst);
+          sess.armed = m;
+          s.count(&format!("disk.{dk}"));
+          continue;
+        }
         if !sess.loaded || dk == "garbage_wal" {
           disk_action(dk, &idx);
           s.count(&format!("disk.{dk}"));
@@ -1086,6 +1207,10 @@ impl Prop for C24 {
         }
         continue;
       }
+      if sess.armed == 0 {
+        // follow the server's commits: a fresh handle while nothing is armed
+        sess.handle = if idx.join("MANIFEST.json").exists() { Index::open(lib_opts(&idx, false)).ok() } else { None };
+      }
       let w = wire(stepv, stall_wait);
       let d = derive(&sess, stepv, &w);
       for n in d.notes.iter() {
@@ -1105,7 +1230,7 @@ impl Prop for C24 {
       let status = r.status.unwrap_or(0);
       s.count(&format!("status.{status}"));
       s.count(&format!("expect.{}", d.expect));
-      let sub = json!({"cfg": case["cfg"], "state": {"loaded": sess.loaded, "manifest": d.facts["manifest_exists"], "idx": d.facts["idx"]}, "step": stepv});
+      let sub = json!({"cfg": case["cfg"], "state": {"loaded": sess.loaded, "armed": sess.armed, "manifest": d.facts["manifest_exists"], "idx": d.facts["idx"]}, "step": stepv});
 
       // ---- correspondence: model vs socket ----
       let mut model_status = 0u64;
@@ -1196,6 +1321,6 @@ impl Prop for C24 {
 
   fn finish(&self, _tier: Tier, s: &mut Summary) {
     s.exhaustive = false;
-    s.notes.push("status and body shape compared per request; /healthz probed on a fresh connection after every request; core outcome of /refresh and /compact is not predicted natively (model asked for ok and err); protocol-level garbage only checked for liveness".into());
+    s.notes.push("status and body shape compared per request; /healthz probed on a fresh connection after every request; core outcome of /refresh and /compact is not predicted natively unless a storage fault is armed (model asked for ok and err); core errors and panics are also produced by storage fault injection through the searchlite_verif FsStorage hook (storage_faults sessions); protocol-level garbage only checked for liveness".into());
   }
 }
